@@ -289,8 +289,7 @@ Theorem squash_cli_graph (o : opts) (tables : list string) g key key' root d :
   wf_b (gr_arena g) (gr_keys g) = true -> alookup key (gr_keys g) = Some root ->
   exists t st, squash g key d = Ok t /\ build_key_from_iter [] key' t = Ok st /\
     to_markdown o tables (cli_patch st key') key' = Ok (tree_to_markdown o tables (key_parent key') t) /\
-    (heading_overflow t = false ->
-     to_markdown (Opts "") [] (cli_patch st key') key' = squash_cli_text key' t).
+    to_markdown (Opts "") [] (cli_patch st key') key' = squash_cli_text key' t.
 Proof.
   intros Hwf K. pose proof (wf_b_collectable g Hwf) as C.
   destruct (squash_terminates g C key root d K) as (doc & _ & Hs).
